@@ -221,10 +221,19 @@ impl<K: Kind> SimArc<K> {
 
     /// Checks that the object may be touched through this handle right now.
     fn touch(&self, what: &str) -> bool {
-        let s = self.slot();
         if rt::is_aborting() {
             return false;
         }
+        if self.ptr.is_null() || !ARENA.with(|a| a.borrow().by_addr.contains_key(&(self.ptr as usize))) {
+            // the library produced a non-optional handle from null or from something that is
+            // not an object at all
+            rt::fail(
+                "type-confusion",
+                format!("{} through a handle whose pointer {:#x} is not an object (null or foreign)", what, self.ptr as usize),
+            );
+            return false;
+        }
+        let s = self.slot();
         if s.state.get() != ST_LIVE {
             rt::fail(
                 "uaf",
@@ -295,6 +304,9 @@ impl<K: Kind> SimArc<K> {
 
     /// Identity without touching the object (harness bookkeeping only).
     pub fn peek_uid(&self) -> u32 {
+        if self.ptr.is_null() {
+            return 0;
+        }
         self.slot().uid.get()
     }
 
